@@ -45,7 +45,7 @@ def parseLine : List String → Option Line
     some { ops := [.delete ss lo hi], kind := "d" }
   | ["snap"] => some { ops := [.snapBegin, .snapTo .idle], kind := "snap" }
   | ["sb"] => some { ops := [.snapBegin], kind := "sb" }
-  | ["snapfail"] => some { ops := [.snapFail], kind := "sb" }
+  | ["snapfail"] => some { ops := [.snapFail], kind := "sf" }
   | ["sw"] => some { ops := [.snapTo .written], kind := "s" }
   | ["sr"] => some { ops := [.snapTo .replaced], kind := "s" }
   | ["sc"] => some { ops := [.snapTo .cleared], kind := "s" }
@@ -115,6 +115,9 @@ def stepLine (s : State) (l : Line) : State × String :=
   match l.kind, tr with
   | "snap", (_, o) :: _ =>
     if o = .ok then (s', "ok") else ((step s .snapBegin).1, render l.kind o)
+  | "sb", (_, o) :: _ =>
+    -- a snapshot of an empty store is never parked by the harness: it runs to its end
+    if s'.phase = .begun && s'.snap.isEmpty then ((step s' .snapStep).1, render l.kind o) else (s', render l.kind o)
   | _, _ =>
     match tr[l.ans]? with
     | some (_, o) => (s', render l.kind o)
